@@ -1,1 +1,46 @@
-import AutomataVerif.Model.Convert
+/-
+Props/C07.lean — C07: NFA/DFA conversions and ε-elimination preserve the language.
+
+English statement (properties.jsonl): determinising any NFA (with every combination of the
+minify and retain-names options), viewing any DFA as an NFA, and eliminating empty-string
+transitions from any NFA each produce a valid automaton with exactly the same language as
+the source.  The epsilon-eliminated NFA has no empty-string transition left and no state
+unreachable from its initial state.
+
+`NFA.accepts` / `DFA.accepts` are the verdicts tied to Mathlib's `εNFA.accepts` /
+`DFA.accepts` by C01; "valid" is `validate = .ok ()`, the model of the constructor's check;
+`PyShape` says that the lists standing for Python sets/dicts have no repeated elements/keys.
+-/
+import AutomataVerif.Proofs.Subset
+
+namespace AV.Props.C07
+open AV AV.C07
+
+variable {σ α : Type} [DecidableEq σ] [DecidableEq α]
+
+/-! ## A. `DFA.from_nfa` — the subset construction -/
+
+/-- **Subset construction, `retain_names=True, minify=False`: same language.**  For every
+valid NFA (ε-cycles, states without rows, empty target sets, unreachable parts included) the
+DFA built by `DFA.from_nfa` accepts exactly the words the NFA accepts.  No size bound: the
+BFS fuel `2 ^ |states| + 1` of the model is shown to be sufficient. -/
+theorem C07_from_nfa_lang (n : AV.NFA σ α) (hv : n.validate = .ok ()) (ps : n.PyShape) :
+    ∀ w, n.toDFA.accepts w = n.accepts w := by
+  intro w
+  have wf := (NFA.validate_eq_ok n).mp hv
+  unfold NFA.toDFA
+  rw [DFA.expand_accepts _ _ (subset_expandHyp n _) w]
+  have h := subset_run wf ps w _ (fun q hq => NFA.closure_sub_states wf wf.initOk hq)
+  cases hr : DFA.implRun n.subsetSucc (some (n.canon (n.closure n.init))) w <;>
+    rw [hr] at h <;> exact h
+
+/-- **Subset construction: the result is a valid DFA** (every state has a row, rows use
+alphabet symbols only and lead to states, a row is complete unless the DFA is flagged
+partial, initial and final states are states). -/
+theorem C07_from_nfa_valid (n : AV.NFA σ α) (hv : n.validate = .ok ()) :
+    n.toDFA.validate = .ok () := by
+  have wf := (NFA.validate_eq_ok n).mp hv
+  rw [DFA.validate_eq_ok]
+  exact expand_wf _ _ (subset_expandHyp n _) (fun u _ => subsetSucc_keys_sub wf u)
+
+end AV.Props.C07
